@@ -140,7 +140,7 @@ CHECKS = {
              "itself a generated history, so every step is a crash point. non-trivial = a crash with >=1 delivered-but-unacknowledged event "
              "outstanding and >=1 durable write before it; distinct by hash of the op-list",
         assumptions=HIST_ASSUME,
-        units=[rapid("TestC01_History", 6000, 400000), plain("TestC01_KnownFindings"), rapid("TestC01_RollbackRestart", 1500, 200000)],
+        units=[rapid("TestC01_History", 6000, 400000), plain("TestC01_KnownFindings"), rapid("TestC01_RollbackRestart", 1500, 200000), rapid("TestC01_TornFile", 400, 20000)],
         min_share=dict(any={"crash_mid_save": ["histories", 0.10], "ack_delayed_across_save": ["histories", 0.20], "crash_outstanding_after_write": ["histories", 0.10],
                             "end_transient_after_events": ["histories", 0.10],
                             "rollback_restart_checkpointed_event_not_resent": ["rollback_restart_cases", 0.2]}),
